@@ -18,6 +18,7 @@ import (
 	"encoding/xml"
 	"errors"
 	"fmt"
+	"io"
 	"runtime"
 	"strconv"
 	"strings"
@@ -176,7 +177,15 @@ func (cl call) denoted() []xml.Token {
 			switch s := t.(type) {
 			case xml.StartElement:
 				if depth == 0 {
-					out[i] = xml.StartElement{Name: cl.start.Name, Attr: append(append([]xml.Attr(nil), cl.start.Attr...), s.Attr...)}
+					// encoding/xml's EncodeElement: start's name, start's attributes, then the
+					// value's own (its default namespace declaration goes with its name)
+					as := append([]xml.Attr(nil), cl.start.Attr...)
+					for _, a := range s.Attr {
+						if !(a.Name.Space == "" && a.Name.Local == "xmlns") {
+							as = append(as, a)
+						}
+					}
+					out[i] = xml.StartElement{Name: cl.start.Name, Attr: as}
 				}
 				depth++
 			case xml.EndElement:
@@ -236,6 +245,8 @@ func classify(err error) string {
 		return "ok"
 	case errors.Is(err, xmpp.ErrOutputStreamClosed):
 		return "closed"
+	case errors.Is(err, io.EOF):
+		return "eof"
 	case errors.Is(err, context.Canceled):
 		return "ok" // SendIQ & co. wrote the element, then gave up waiting for a reply
 	case strings.Contains(err.Error(), "did not begin with a StartElement"), strings.Contains(err.Error(), "start element, got"):
@@ -426,7 +437,7 @@ func (c *ctxT) check(cfg cfgT, cl call, status string, wire []byte, lines []stri
 	expEls, _ := splitTop(exp)
 	switch {
 	case len(els) == 0 && len(expEls) > 0:
-		c.fail("flushed", key, lines, "the call returned nil but nothing is on the connection")
+		c.fail("one-element", key, lines, "the call returned nil but wrote nothing")
 		return obs
 	case len(els) != len(expEls) || stray:
 		c.fail("one-element", key, lines, fmt.Sprintf("%d top-level elements on the wire (stray=%v), expected %d: %q", len(els), stray, len(expEls), clip(wire)))
@@ -462,7 +473,7 @@ func (c *ctxT) one(cfg cfgT, cl call, class string) {
 	line := cl.line(cfg)
 	lines := []string{r.Prop + " " + line}
 	var status string
-	var wire []byte
+	var wire, late []byte
 	saved := cl.copyArgs()
 	if cl.entry == "reply" {
 		status, wire = execReply(cfg, cl)
@@ -471,8 +482,23 @@ func (c *ctxT) one(cfg cfgT, cl call, class string) {
 		rs.Out.Take()
 		status = exec(rs.S, cl)
 		wire = rs.Out.Take()
+		if status == "ok" {
+			// anything a later flush still brings out was not on the connection when
+			// the call returned
+			if w := rs.S.TokenWriter(); w.Close() == nil {
+				late = rs.Out.Take()
+			}
+		}
 	}
 	c.failed = false
+	formClass := strings.SplitN(cl.form, ":", 2)[0]
+	if cl.entry != "reply" && status == "ok" {
+		r.Line(fmt.Sprintf("flush %s %s", cl.entry, formClass), common.B(len(late) == 0))
+		if len(late) != 0 {
+			c.fail("flushed", cl.entry+"/"+formClass, lines, fmt.Sprintf("the call returned nil with %d of %d bytes of its element still in the encoder's buffer", len(late), len(late)+len(wire)))
+			wire = append(wire, late...)
+		}
+	}
 	obs := c.check(cfg, saved, status, wire, lines)
 	if why := cl.argsDiffer(saved); why != "" {
 		c.fail("arguments-unaltered", cl.entry, lines, why)
@@ -676,6 +702,11 @@ func (c *ctxT) concurrent(cfg cfgT, rnd *common.Rand, nG, nK int, caseNo int) {
 		}(g)
 	}
 	finished := common.WithTimeout(60*time.Second, wg.Wait)
+	if finished {
+		// bring out what Encode/EncodeElement left in the buffer for WriterTo values (known
+		// finding, reported by the sequential cases); atomicity is judged on the complete stream
+		rs.S.TokenWriter().Close()
+	}
 	wire := rs.Out.Bytes()
 	r.Mark("case conc %d", caseNo)
 	var lines []string
